@@ -681,8 +681,9 @@ void run_ioni(Ctx& C, IoniSpec const& S)
                         // min(cut, lowest*M/m_p), so delta rays below the user's production cut
                         // are within its documented behaviour: recorded as an observation only.
                         if (!(T >= LD(cut) * (1 - 4 * eps)))
-                            C.tag(std::string(S.bragg_rule ? "bragg-icru73qo" : S.model)
-                                  + ":observation:secondary-below-user-production-cut");
+                            C.tag((std::string(S.bragg_rule ? "bragg-icru73qo" : S.model)
+                                   + ":observation:secondary-below-user-production-cut")
+                                      .c_str());
                         if (!(r.energy_deposition.value() == 0))
                             C.tag("deposit");
                         // energy: E_out = fl(E - T), one rounding; the long double sum is exact
